@@ -228,6 +228,23 @@ def shape_class(t):
 
 
 def oracle_step(t, op, st, strict):
+    bad = oracle_step0(t, op, st, strict)
+    if bad and "edge" in node_names(t)[1:]:
+        hit = [b for b in bad if b[0].split(":")[0] in ("tips", "identity", "splits", "dist", "raised")]
+        if hit:
+            # one coarse key: the TreeBuilder treats the literal name "edge" as already used and renames the node
+            rest = [b for b in bad if b not in hit]
+            return rest + [("renamed:node-called-edge", f"{op['op']}: {hit[0][1]}", hit[0][2], hit[0][3])]
+    if bad and any(n in (None, "") for n in node_names(t)[1:]) and any(isinstance(n, str) and n.startswith("edge.") for n in node_names(t)):
+        hit = [b for b in bad if b[0].split(":")[0] in ("tips", "identity", "splits", "dist")]
+        if hit:
+            # an unnamed node is created (and named edge.k[.j]) before a node that really carries that name, which is then renamed
+            rest = [b for b in bad if b not in hit]
+            return rest + [("renamed:name-taken-by-generated-name", f"{op['op']}: {hit[0][1]}", hit[0][2], hit[0][3])]
+    return bad
+
+
+def oracle_step0(t, op, st, strict):
     """violations of the property text by one step: input tree t, operation op, observed step record st.
     returns list of (key, what, expected, observed)"""
     bad = []
@@ -243,13 +260,12 @@ def oracle_step(t, op, st, strict):
     if res is None:
         return bad
     roundtrip = o in ("newick_rt", "json_rt")
-    names_ok = all(name_ok_for_roundtrip(n, op) for n in node_names(t)[1:]) and len(set(node_names(t))) == len(node_names(t)) \
-        and "edge" not in node_names(t)
+    names_ok = all(name_ok_for_roundtrip(n, op) for n in node_names(t)[1:]) and len(set(node_names(t))) == len(node_names(t))
     if roundtrip and not names_ok:
         return bad
     if roundtrip:
         # the writers' weak spots get ONE coarse key each
-        sub = oracle_step(t, dict(op, op="copy"), dict(st, mut_recv=False), strict)
+        sub = oracle_step0(t, dict(op, op="copy"), dict(st, mut_recv=False), strict)
         punct_only = any(is_punct_name(n) for n in node_names(t)[1:])
         special = any(set(n) & NEWICK_SPECIAL for n in node_names(t)[1:])
         if isinstance(res, dict):
@@ -422,6 +438,10 @@ def modelled(case, variant):
     if variant.get("json") != "fixed" and any(o["op"] == "json_rt" for o in case["ops"]) and any(
             "[" in n or "]" in n for n in node_names(case["tree"]) if isinstance(n, str)):
         return False  # unescaped brackets become newick comments, which the model does not cover
+    if variant.get("edge_name") == "fixed":
+        # the model's registry (like the pinned TreeBuilder) starts with "edge" taken; identical behaviour unless a node is literally called "edge"
+        if "edge" in node_names(case["tree"]) or any(o["op"] == "parse" and "edge" in o["text"].replace("edge.", "") for o in case["ops"]):
+            return False
     if variant.get("labels") == "fixed" and any(o["op"] in ("newick_rt", "json_rt", "parse") for o in case["ops"]):
         # the model's parser (like the pinned one) cannot tell a label spelled like a punctuation token from the token
         if any(is_punct_name(n) or (isinstance(n, str) and n.startswith("'"))
@@ -651,7 +671,7 @@ def random_block(tier, rng):
     return cases
 
 
-TRICKY = ["it's", "a b", "x_y", "a,b", "(x)", "a:b", "a;b", '"q"', "a'b'c", "x.y-1", "Homo sapiens (human)", "[z]", ",", ";", "(",
+TRICKY = ["edge", "it's", "a b", "x_y", "a,b", "(x)", "a:b", "a;b", '"q"', "a'b'c", "x.y-1", "Homo sapiens (human)", "[z]", ",", ";", "(",
           ":", "'quoted'", "'lead", " pad ", "a\tb"]
 
 
@@ -874,7 +894,14 @@ def treedist_check(case, st, cur=None, k=0):
 def corpus():
     t = ["root", None, [["x", 3, [["a", 1, []], ["b", 2, []]]], ["y", 6, [["c", 4, []], ["d", 5, []]]]]]
     t3 = ["root", None, [["x", 3, [["a", 1, []], ["b", 2, []]]], ["c", 4, []], ["d", 5, []]]]
-    return [dict(tree=t, ops=[dict(op="unrooted")], scale=1, block="corpus"),
+    te = ["root", None, [["edge", 1, []], ["b", 2, []], ["x", 5, [["c", 3, []], ["d", 4, []]]]]]
+    edge_cases = [dict(tree=te, ops=[o], scale=1, block="corpus") for o in (
+        dict(op="rooted_with_tip", name="b"), dict(op="rooted_at", name="x"), dict(op="unrooted_deepcopy"), dict(op="sorted"),
+        dict(op="newick_rt", unmunge=True), dict(op="json_rt"), dict(op="midpoint"),
+        dict(op="sub_tree", names=["edge", "b", "c"], im=False, kr=False, tipsonly=True))]
+    tg = ["root", None, [["x", 4, [["a", 1, []], ["b", 2, []], ["c", 3, []]]], ["edge.0", 5, []], ["d", 6, []]]]
+    edge_cases.append(dict(tree=tg, ops=[dict(op="bifurcating"), dict(op="unrooted_deepcopy")], scale=1, block="corpus"))
+    return edge_cases + [dict(tree=t, ops=[dict(op="unrooted")], scale=1, block="corpus"),
             dict(tree=t, ops=[dict(op="midpoint")], scale=1, block="corpus"),
             dict(tree=t3, ops=[dict(op="sub_tree", names=["a", "b", "c"], im=False, kr=False, tipsonly=True)], scale=1, block="corpus"),
             dict(tree=t, ops=[dict(op="rooted_at", name="x"), dict(op="prune")], scale=1, block="corpus")]
@@ -1042,7 +1069,7 @@ def run(tier: str, seed: int) -> int:
              "single-child node), a transforming operation, and the implementation returned a tree; exhaustive block: every ordered tree shape "
              f"with 2..{5 if tier == 'quick' else 6} tips (polytomies included) x every node as new root x every tip as outgroup x every tip subset x flags",
         samples=[dict(case=cases[i], impl=impl[i]) for i in (0, len(cases) // 2, len(cases) - 1)],
-        input_distribution=dict(blocks=dist, ops=opd, modelled_cases=len(idx), variants={k: variant.get(k) for k in ('unrooted', 'midpoint', 'json', 'labels')}),
+        input_distribution=dict(blocks=dist, ops=opd, modelled_cases=len(idx), variants={k: variant.get(k) for k in ('unrooted', 'midpoint', 'json', 'labels', 'edge_name')}),
         model_impl_disagreements=len(dis), spec_violations=nviol, disagreement_samples=dis[:3],
         partial=[
             "unrooted topology: theorems (same_topology / restricted_topology, split sets up to complement) for re-rooting, sorted, "
